@@ -211,8 +211,19 @@ def run(tier):
     rep.floor("keyword lookup sites", nsites, 4)
     # function names in the evaluator: every comparison of a string with one of the function-name literals has a lower-cased left side
     FN = {"low", "high", "byte2", "byte3", "byte4", "lwrd", "hwrd", "exp2", "log2", "page"}
-    key = "expr::Expr::run"
-    if key in P.body:
+    # the evaluator function: whichever body reachable from Expr::run compares strings with the function-name literals
+    key = None
+    for cand in sorted(P.reachable(["expr::Expr::run"])):
+        for bb, t, name, tg in P.call_sites(cand):
+            full, rp = MU.callee_names(t)
+            if "PartialEq" in rp and "str" in rp and rp.endswith("::eq"):
+                lits = [a["const"]["str"] for a in t["args"] if "const" in a and "str" in a["const"]]
+                if not lits:
+                    locs, consts, calls, places = MU.backward_slice(P.body[cand], t["args"][1:2])
+                    lits = [c["str"] for c in consts if "str" in c]
+                if lits and lits[0] in FN:
+                    key = cand
+    if key is not None:
         b = P.body[key]
         nf = 0
         bad = None
@@ -231,7 +242,7 @@ def run(tier):
         rep.ob("C14.case|function-names", nf >= 8 and bad is None, "function names are compared after lower-casing (%d comparisons)" % nf if nf >= 8 and bad is None else
                "function name %s is compared with text that is not lower-cased (%s)" % bad if bad else "only %d function-name comparisons found" % nf)
     else:
-        rep.unprovable("C14.case|function-names", "Expr::run not found")
+        rep.unprovable("C14.case|function-names", "no function-name comparisons found in code reachable from Expr::run")
     # ---- line ends
     key = "parser::parse"
     if key in P.body:
